@@ -3,7 +3,7 @@
 //! relies on; (2) end-to-end partition estimates of J_P and of the MSE bound over a catalogue of weighted-set shapes;
 //! (3) per-item winning frequencies of a single weighted set.
 
-use crate::common::{ks_distance, mean_se, splitmix64, Ctx};
+use crate::common::{ks_distance, splitmix64, Ctx};
 use crate::props::c02::{run_variant, Entry, Variant};
 use rayon::prelude::*;
 use serde_json::{json, Value};
@@ -153,38 +153,56 @@ struct PartOut {
 fn partition(v: Variant, alt: bool, m: usize, sh: &Shape, t: u64, base: u64) -> Result<PartOut, String> {
     let nr = sh.roles.len() as u64;
     let j = jp(&sh.roles);
-    let per: Vec<Result<(f64, Vec<u64>), String>> = (0..t)
+    // accumulate moments chunk-wise (no per-labelling storage): n, sum x, sum x^2, sum d^2, sum d^4 with d = x - J_P
+    let nchunks = (t + 1023) / 1024;
+    let acc: Vec<Result<([f64; 5], Vec<u64>), String>> = (0..nchunks)
         .into_par_iter()
-        .map(|tt| {
-            let o = base + tt * nr;
-            let wa: Vec<(u64, f64)> = sh.roles.iter().enumerate().filter(|(_, w)| w.0 > 0.).map(|(r, w)| (o + r as u64, w.0)).collect();
-            let wb: Vec<(u64, f64)> = sh.roles.iter().enumerate().filter(|(_, w)| w.1 > 0.).map(|(r, w)| (o + r as u64, w.1)).collect();
-            let e = entry_for(v, alt);
-            let sa = run_variant(v, e, m, &wa).ok_or("entry")??.0;
-            let sb = run_variant(v, e, m, &wb).ok_or("entry")??.0;
-            let eq = sa.iter().zip(sb.iter()).filter(|(x, y)| x == y).count();
+        .map(|c| {
+            let mut mom = [0f64; 5];
             let mut wins = vec![0u64; nr as usize];
-            for s in &sa {
-                let r = s.wrapping_sub(o);
-                if r < nr {
-                    wins[r as usize] += 1;
+            for tt in (c * 1024)..((c + 1) * 1024).min(t) {
+                let o = base + tt * nr;
+                let wa: Vec<(u64, f64)> = sh.roles.iter().enumerate().filter(|(_, w)| w.0 > 0.).map(|(r, w)| (o + r as u64, w.0)).collect();
+                let wb: Vec<(u64, f64)> = sh.roles.iter().enumerate().filter(|(_, w)| w.1 > 0.).map(|(r, w)| (o + r as u64, w.1)).collect();
+                let e = entry_for(v, alt);
+                let sa = run_variant(v, e, m, &wa).ok_or("entry")??.0;
+                let sb = run_variant(v, e, m, &wb).ok_or("entry")??.0;
+                let eq = sa.iter().zip(sb.iter()).filter(|(x, y)| x == y).count();
+                for s in &sa {
+                    let r = s.wrapping_sub(o);
+                    if r < nr {
+                        wins[r as usize] += 1;
+                    }
                 }
+                let x = eq as f64 / m as f64;
+                let d2 = (x - j) * (x - j);
+                mom[0] += 1.;
+                mom[1] += x;
+                mom[2] += x * x;
+                mom[3] += d2;
+                mom[4] += d2 * d2;
             }
-            Ok((eq as f64 / m as f64, wins))
+            Ok((mom, wins))
         })
         .collect();
-    let mut vals = Vec::with_capacity(t as usize);
+    let mut mom = [0f64; 5];
     let mut wins_a = vec![0u64; nr as usize];
-    for p in per {
-        let (x, w) = p?;
-        vals.push(x);
+    for a in acc {
+        let (mm, w) = a?;
+        for i in 0..5 {
+            mom[i] += mm[i];
+        }
         for (i, c) in w.iter().enumerate() {
             wins_a[i] += c;
         }
     }
-    let (mean, se) = mean_se(&vals);
-    let sq: Vec<f64> = vals.iter().map(|x| (x - j) * (x - j)).collect();
-    let (mse, mse_se) = mean_se(&sq);
+    let n = mom[0];
+    let mean = mom[1] / n;
+    let var = ((mom[2] / n - mean * mean) * n / (n - 1.).max(1.)).max(0.);
+    let se = (var / n).sqrt();
+    let mse = mom[3] / n;
+    let var_d2 = ((mom[4] / n - mse * mse) * n / (n - 1.).max(1.)).max(0.);
+    let mse_se = (var_d2 / n).sqrt();
     Ok(PartOut { mean, se, mse, mse_se, t, wins_a })
 }
 
@@ -231,7 +249,7 @@ pub fn run(ctx: &Ctx) -> i32 {
     let mut tdetails = Vec::new();
     for v in [Variant::P2, Variant::P3, Variant::P3aShaU64] {
         for &m in &ms_tab {
-            let n = if v == Variant::P3aShaU64 { n_tab / 2 } else { n_tab };
+            let n = (if v == Variant::P3aShaU64 { n_tab / 2 } else { n_tab }).min((1u64 << 25) / m as u64);
             let exceed = |o: &TableOut| -> Option<String> {
                 let mut w = Vec::new();
                 if o.worst_ks > 3.4 {
